@@ -239,6 +239,6 @@ def run(F, rep):
     if not getattr(rep, 'nested', False):
         import core
         import c01
-        c01.run(F, core.Borrowed(rep, only={'C01.V2'}))
+        c01.run(F, core.Borrowed(rep, only={'C01.V1', 'C01.V2'}))
 
 
